@@ -1,6 +1,7 @@
 package stream
 
 import (
+	"fmt"
 	"os"
 	"path/filepath"
 	"sort"
@@ -103,6 +104,8 @@ func repoRoot() string {
 func Corpus() []source {
 	corpusOnce.Do(func() {
 		corpus = append(corpus, handSources...)
+		corpus = append(corpus, runSources()...)
+		corpus = append(corpus, numberSources()...)
 		var files []string
 		filepath.Walk(repoRoot(), func(p string, info os.FileInfo, err error) error {
 			if err != nil {
@@ -200,4 +203,61 @@ func c19EnumPrefix(tier string, i int) []uint64 {
 		off = i - encCum[idx-1]
 	}
 	return []uint64{3, uint64(idx), uint64(off), 0 /* plan: all */}
+}
+
+// runSources: an opener followed by a run of one character class whose length
+// sits around the lexer's 4096-byte read buffer, alone and inside a statement.
+func runSources() []source {
+	var out []source
+	runs := []struct{ name, open, ch, close string }{
+		{"brace-word", "{", "a", ""}, {"brace-word-closed", "{", "a", "}"}, {"long-string", "{\"", "a", "\"}"}, {"delim-string", "{", "x", "\"v\""},
+		{"string", "\"", "a", "\""}, {"string-open", "\"", "a", ""}, {"digits", "", "7", ""}, {"hex", "0x", "f", ""}, {"ident", "", "i", ""},
+		{"hash-comment", "#", "c", "\n"}, {"slash-comment", "//", "c", ""}, {"block-comment", "/*", "*", "*/"}, {"block-comment-open", "/*", "*", ""},
+		{"spaces", "", " ", ""}, {"newlines", "", "\n", ""}, {"braces", "", "{", ""}, {"parens", "", "(", ""}, {"percent", "\"", "%", "\""}, {"dots", "req", ".", "x"}, {"minus", "", "-", "1"}, {"bang", "", "!", "x"},
+	}
+	for _, r := range runs {
+		for _, n := range []int{4095, 4096, 4097, 8200} {
+			body := r.open + strings.Repeat(r.ch, n) + r.close
+			out = append(out, source{fmt.Sprintf("run/%s-%d", r.name, n), body})
+			out = append(out, source{fmt.Sprintf("run/%s-%d-in-set", r.name, n), "sub vcl_recv {\n  set req.http.X = " + body + ";\n}\n"})
+		}
+	}
+	return out
+}
+
+// numberSources: every position that takes a number, filled with literals the
+// lexer accepts as a number token but that convert badly or not at all.
+func numberSources() []source {
+	odd := []string{"0x", "0X", "0x.", "99999999999999999999", "9223372036854775808", "-9223372036854775809", "0xFFFFFFFFFFFFFFFFF", "1e99999", "0x1p99999", "1.", "1..2", "00", "08", "1e", "1e+", "1ms2", "5q", "1.5.5", "1e3", "0x1.8p1", "-0", "+1", "1s", "1.5h", "9999999999999999999999d"}
+	pos := []string{
+		"acl a {\n  \"10.0.0.0\"/%s;\n}\n",
+		"acl a {\n  !\"2001:db8::\"/%s;\n}\n",
+		"sub vcl_recv {\n  error %s;\n}\n",
+		"sub vcl_recv {\n  error %s \"m\";\n}\n",
+		"sub vcl_recv {\n  declare local var.i INTEGER;\n  set var.i = %s;\n  set var.i += %s;\n}\n",
+		"sub vcl_recv {\n  if (req.restarts > %s) {\n    restart;\n  }\n}\n",
+		"table t INTEGER {\n  \"k\": %s,\n}\n",
+		"table t FLOAT {\n  \"k\": %s\n}\n",
+		"table t RTIME {\n  \"k\": %s\n}\n",
+		"backend b {\n  .connect_timeout = %s;\n  .max_connections = %s;\n  .port = %s;\n}\n",
+		"director d random {\n  .quorum = %s%%;\n  { .backend = b; .weight = %s; }\n}\n",
+		"sub vcl_fetch {\n  set beresp.ttl = %s;\n  return(deliver);\n}\n",
+		"sub vcl_recv {\n  set req.http.X = std.itoa(%s) + std.strpad(\"a\", %s, \"b\");\n}\n",
+		"sub vcl_recv {\n  switch (%s) {\n  case %s:\n    break;\n  }\n}\n",
+		"sub f(INTEGER var.n) INTEGER {\n  return %s;\n}\n",
+		"sub vcl_recv {\n  set req.http.X = if(%s > %s, %s, %s);\n  call f(%s);\n}\n",
+		"penaltybox p {}\nratecounter r {}\nsub vcl_recv {\n  if (ratelimit.check_rate(\"c\", r, %s, %s, %s, p, %s)) {\n    esi;\n  }\n}\n",
+	}
+	var out []source
+	for pi, p := range pos {
+		n := strings.Count(p, "%s")
+		for _, o := range odd {
+			args := make([]any, n)
+			for i := range args {
+				args[i] = o
+			}
+			out = append(out, source{fmt.Sprintf("num/pos%d/%s", pi, o), fmt.Sprintf(p, args...)})
+		}
+	}
+	return out
 }
